@@ -439,6 +439,8 @@ func runC19(tier string, r *rng) {
 	for _, ans := range []string{"fail", "ok:20", "ok:15", "ok:40"} {
 		c19HeadRaceStale(20, ans)
 	}
+	c19TailDown(10, 40, 5)
+	c19TailDown(20, 30, 1)
 	c19LagStore(20, 5)
 	c19LagStore(45, 10)
 	if os.Getenv("VERIF_NO_COLDSTART") == "" {
@@ -659,4 +661,47 @@ func c19LagStore(storeTo, window int) {
 	h2 := headOnce()
 	h3 := headOnce()
 	emit("C19 kind=lagstore store=%d window=%d => h0=%s arrive=%s h1=%s tailmove=%s tail=%d h2=%s h3=%s", storeTo, window, h0, arr, h1, mv, tail, h2, h3)
+}
+
+// c19TailDown: a synced store lo..hi whose configured tail (SyncFromHeight) lies BELOW its tail: the tail moves down and the
+// difference is fetched and appended below the head. Head() must not follow that backward append, and a stale header
+// between the old tail and the head is still refused as known.
+func c19TailDown(lo, hi int, sfh uint64) {
+	ctx := context.Background()
+	now := time.Now().UnixNano()
+	t0 := now - int64(5*time.Second) - int64(c19N-1)*c19Spacing
+	chain := vhdr.Chain("A", c19N, t0, c19Spacing, 0)
+	st := newStoreWith(chain, lo, hi)
+	g := &scriptGetter{chain: chain}
+	g.headFn = func(*vhdr.Header) (*vhdr.Header, error) { return nil, errors.New("scripted head failure") }
+	s, _ := newSyncer(g, st, hsync.WithSyncFromHeight(sfh))
+	s.VerifSetPolicy(100*time.Hour, time.Duration(c19Spacing), 100*time.Hour)
+	headOnce := func() string {
+		hctx, cancel := context.WithTimeout(ctx, 3*time.Second)
+		defer cancel()
+		if h, err := s.Head(hctx); err == nil && h != nil {
+			return utoa(h.H)
+		}
+		return "err"
+	}
+	h1 := headOnce()
+	mv := "ok"
+	tctx, cancelT := context.WithTimeout(ctx, 3*time.Second)
+	tl, err := s.VerifSubjectiveTail(tctx, chain[hi-1])
+	cancelT()
+	tail := uint64(0)
+	if err != nil {
+		mv = "err"
+	} else if tl != nil {
+		tail = tl.H
+	}
+	_ = st.Sync(ctx)
+	h2 := headOnce()
+	stale := "refuse"
+	c := chain[hi-3]
+	if err := s.VerifIncomingNetworkHead(ctx, &vhdr.Header{Chain: c.Chain, H: c.H, T: c.T, Prev: c.Prev, Salt: 6}); err == nil {
+		stale = "accept"
+	}
+	h3 := headOnce()
+	emit("C19 kind=taildown lo=%d hi=%d sfh=%d => h1=%s tailmove=%s tail=%d h2=%s stale=%s h3=%s", lo, hi, sfh, h1, mv, tail, h2, stale, h3)
 }
